@@ -144,6 +144,12 @@ func propC17Notation(c notationCase, o *hx.Obs) *hx.Failure {
 				}
 			}
 		}
+		// coordinate strings with characters before or after the move denote no move
+		for _, junk := range []string{m.UCI(true) + "0", m.UCI(true) + "zz", "x" + m.UCI(true), m.UCI(true) + m.UCI(true)} {
+			if f := tryUCI(junk); f != nil {
+				return f
+			}
+		}
 		if m.Kind == rc.Promotion {
 			if i := strings.IndexByte(plain, '='); i > 0 {
 				if f := trySAN(plain[:i], "promotion piece dropped from "+m.UCI(true)); f != nil {
